@@ -7,8 +7,6 @@ import (
 	"bytes"
 	"encoding/json"
 	"fmt"
-	"reflect"
-	"sort"
 	"strings"
 	"testing"
 
@@ -502,10 +500,7 @@ func sameGEntries(want, got []GEntry) error {
 func runAmmoTarget(t *testing.T, format string) {
 	pand.Init()
 	r := vf.Start(t, "C13")
-	vf.Check(r, genAmmoCase(format, r), func(c AmmoCase, o *vf.Obs) error {
-		err := checkAmmo(c, o)
-		return err
-	})
+	vf.Check(r, genAmmoCase(format, r), withExcuse(r, checkAmmo))
 }
 
 func TestF1Uri(t *testing.T)      { runAmmoTarget(t, "uri") }
@@ -547,6 +542,3 @@ func FuzzUripost(f *testing.F)  { fuzzAmmo(f, "FuzzUripost", "uripost") }
 func FuzzRaw(f *testing.F)      { fuzzAmmo(f, "FuzzRaw", "raw") }
 func FuzzHTTPJSON(f *testing.F) { fuzzAmmo(f, "FuzzHTTPJSON", "jsonline") }
 func FuzzGrpcJSON(f *testing.F) { fuzzAmmo(f, "FuzzGrpcJSON", fmtGRPC) }
-
-var _ = reflect.DeepEqual
-var _ = sort.Strings
